@@ -392,7 +392,7 @@ def c08_runs(r, tier: str) -> List[List[dict]]:
     if tier == "thorough":
         lengths = list(range(0, 1701)) + list(range(1701, 4097, 5)) + [65536, 1 << 20, 4 << 20]
     else:
-        lengths = [0, 1, 2, 1023, 1024, 1025] + r.sample(lengths, 34)
+        lengths = [0, 1, 2, 1023, 1024, 1025, 70001] + r.sample(lengths, 33)
     for n in lengths:
         frag = r.choice(["1024", "1024", "byte" if n < 3000 else "1024", "random"]) if n <= 10000 else "1024"
         w = SysWorld(blob_dep(), r, nclients=1, raw_policies=(None, "Never", "Also", "Only"))
